@@ -2,6 +2,7 @@
 from ..rules import cp1_rules as R
 from ..rules import sibling_rules as SI
 from ..rules import degree_rules as DG
+from ..rules import shape_rules as SH
 from ..rules.common import u1
 
 REL = R.CP_REL
@@ -25,6 +26,7 @@ def run(ctx):
     ctx.do(SI.rule_k3)
     ctx.do(DG.rule_hd2)
     ctx.do(SI.rule_pt1, [SI.CP])
+    ctx.do(SH.rule_sh6)
     ctx.do(u1, ENTRIES, min_functions=20)
     ctx.r.assume("stereographic formulas, Moebius images, double complement "
                  "and Fubini-Study quantities are numerical and not decided")
